@@ -26,8 +26,10 @@ class Outer:
 
 
 def make():
-    def inner(x):
-        v = x + 4
+    k = 4
+
+    def inner(x):          # a real closure (free variable k): ptera rebuilds it through a factory function
+        v = x + k
         return v
     return inner
 
